@@ -79,6 +79,10 @@ func parseKeySchema(schema []*types.KeySchemaElement) (keySchema, error) {
 		return ks, types.NewError("ValidationException", "No Hash Key specified in schema. All Dynamo DB Tables must have exactly one hash key", nil)
 	}
 
+	if ks.HashKey == ks.RangeKey {
+		return ks, types.NewError("ValidationException", "Both the Hash Key and the Range Key element in the KeySchema have the same name", nil)
+	}
+
 	return ks, nil
 }
 
@@ -158,6 +162,10 @@ func buildGSI(t *Table, gsiInput *types.GlobalSecondaryIndex) (*index, error) {
 
 // ApplyIndexChange applies the index change
 func (t *Table) ApplyIndexChange(change *types.GlobalSecondaryIndexUpdate) error {
+	if err := checkIndexChange(change); err != nil {
+		return err
+	}
+
 	switch {
 	case change.Create != nil:
 		{
@@ -179,6 +187,28 @@ func (t *Table) ApplyIndexChange(change *types.GlobalSecondaryIndexUpdate) error
 	return nil
 }
 
+// checkIndexChange refuses an element of GlobalSecondaryIndexUpdates that deletes or updates an
+// index without naming it
+func checkIndexChange(change *types.GlobalSecondaryIndexUpdate) error {
+	if change == nil {
+		return types.NewError("ValidationException", "a global secondary index update must not be null", nil)
+	}
+
+	switch {
+	case change.Create != nil:
+		// (the name and the key schema of the new index are checked when it is built)
+		return nil
+	case change.Delete != nil && types.StringValue(change.Delete.IndexName) != "":
+		return nil
+	case change.Update != nil && types.StringValue(change.Update.IndexName) != "":
+		return nil
+	case change.Delete != nil || change.Update != nil:
+		return types.NewError("ValidationException", "the index name of a global secondary index update is missing", nil)
+	}
+
+	return nil
+}
+
 // ApplyIndexChanges sets the attribute definitions and applies the index changes of an
 // UpdateTable request as a whole: if one of the changes fails the table keeps the attribute
 // definitions and indexes it had before the call
@@ -194,6 +224,10 @@ func (t *Table) ApplyIndexChanges(attrs []*types.AttributeDefinition, changes []
 	}
 
 	for _, attr := range attrs {
+		if attr == nil || types.StringValue(attr.AttributeName) == "" || types.StringValue(attr.AttributeType) == "" {
+			return types.NewError("ValidationException", "an attribute definition needs an attribute name and an attribute type", nil)
+		}
+
 		// the declared type of an attribute that the table or one of its indexes uses as a key cannot change:
 		// the keys of the stored items were built with it
 		if current, ok := t.AttributesDef[*attr.AttributeName]; ok && current != *attr.AttributeType && t.isKeyAttribute(*attr.AttributeName) {
